@@ -134,19 +134,30 @@ def stats(prog):
             "leaves_no_grad": sum(1 for l in prog["leaves"] if not l["req"])}
 
 
-def generate(rng, n_instr, n_leaves, allow_kinks=False, big=False):
+def generate(rng, n_instr, n_leaves, allow_kinks=False, big=False, leaves=None, init=None, join=True):
+    """init = (prog, numpy values of every value id) continues an existing program (used for histories over shared leaves)"""
     shapes_pool = [[3], [2, 3], [3, 3], [2, 2, 3], [1, 3], [3, 1], [], [4]] if not big else [[6, 5], [5, 5], [4, 6, 5], [30], [5]]
-    leaves, vals = [], []
-    for i in range(n_leaves):
-        shp = shapes_pool[int(rng.integers(len(shapes_pool)))]
-        leaves.append({"shape": shp, "req": bool(rng.random() < 0.75)})
-    if not any(l["req"] for l in leaves):
-        leaves[0]["req"] = True
-    leaf_vals = [rng.standard_normal(tuple(l["shape"])) for l in leaves]
-    vals = list(leaf_vals)
-    instrs = []
+    if init is not None:
+        prog0, vals0 = init
+        leaves = prog0["leaves"]
+        instrs = list(prog0["instrs"])
+        vals = list(vals0)
+        leaf_vals = vals[:len(leaves)]
+        used = set(i for ins in instrs for i in ins["in"])
+        n_instr = len(instrs) + n_instr
+    else:
+        if leaves is None:
+            leaves = []
+            for i in range(n_leaves):
+                shp = shapes_pool[int(rng.integers(len(shapes_pool)))]
+                leaves.append({"shape": shp, "req": bool(rng.random() < 0.75)})
+            if not any(l["req"] for l in leaves):
+                leaves[0]["req"] = True
+        leaf_vals = [rng.standard_normal(tuple(l["shape"])) for l in leaves]
+        vals = list(leaf_vals)
+        instrs = []
+        used = set()
     names = [k for k in POPS if allow_kinks or k not in KINKED]
-    used = set()
     attempts = 0
     while len(instrs) < n_instr and attempts < n_instr * 30:
         attempts += 1
@@ -231,7 +242,7 @@ def generate(rng, n_instr, n_leaves, allow_kinks=False, big=False):
                 if any(v.ndim < 2 for v in x[-2:]):
                     continue
             elif op == "linear":
-                if x[1].ndim != 2 or x[0].ndim < 1:
+                if x[1].ndim != 2 or x[0].ndim < 1 or x[2].ndim != 1:
                     continue
             elif op == "mse":
                 if x[0].shape != x[1].shape:
@@ -267,7 +278,7 @@ def generate(rng, n_instr, n_leaves, allow_kinks=False, big=False):
         vals.extend(outs)
     # join every value that nothing consumes (except a few deliberately unused multi-output parts) into one result
     n_l = len(leaves)
-    dangling = [i for i in range(n_l, len(vals)) if i not in used]
+    dangling = [i for i in range(n_l, len(vals)) if i not in used] if join else []
     if rng.random() < 0.5 and len(dangling) > 2:
         dangling.pop(int(rng.integers(len(dangling))))       # leave one branch unused on purpose
     cur = None
@@ -287,7 +298,9 @@ def generate(rng, n_instr, n_leaves, allow_kinks=False, big=False):
     if cur is None:
         cur = len(vals) - 1
     prog = {"leaves": leaves, "instrs": instrs, "final": cur}
-    return prog, [v.tolist() for v in leaf_vals]
+    if init is not None or not join:
+        return prog, vals
+    return prog, [np.asarray(v).tolist() for v in leaf_vals]
 
 
 def fix_args(prog):
